@@ -110,7 +110,7 @@ fn parse_complete_sip(parser_: Parser, bytes: &[u8]) -> Result<CompleteItem, Err
         Ok(len) => {
             if len.0 == 0 {
                 Bytes::new()
-            } else if buffer.len() >= head_end + len.0 {
+            } else if buffer.len() - head_end >= len.0 {
                 buffer.slice(head_end..head_end + len.0)
             } else {
                 log::warn!("Incoming SIP message has an incomplete body");
